@@ -35,6 +35,10 @@ var solvers = []solverSpec{
 }
 
 func buildQuery(o *Obl, logic string, withModel bool) string {
+	family := "z3"
+	if logic != "" {
+		family = "cvc5"
+	}
 	var b strings.Builder
 	if withModel {
 		b.WriteString("(set-option :produce-models true)\n")
@@ -47,6 +51,13 @@ func buildQuery(o *Obl, logic string, withModel bool) string {
 		b.WriteString(l + "\n")
 	}
 	for _, l := range e.out[:o.Prefix] {
+		if strings.HasPrefix(l, "#") {
+			sp := strings.IndexByte(l, ' ')
+			if l[1:sp] != family {
+				continue
+			}
+			l = l[sp+1:]
+		}
 		b.WriteString(l + "\n")
 	}
 	if o.Expect == "sat" && o.Kind != "canary" {
